@@ -89,6 +89,8 @@ class World:
                                     max_steps=max_steps)
         self.svc = fakes3.FakeS3(emit=self._emit_s3, point=self.sched.point)
         self.svc.body_read_size = sc.get('body_read', None)
+        if sc.get('latency'):
+            self.svc.latency_plan = self._latency
         self.tmp = None
         self.key2x = {}
         self.xinfo = {}
@@ -115,6 +117,23 @@ class World:
             if kw[k] is None:
                 del kw[k]
         self.sched.emit(e, **kw)
+
+    def _latency(self, call, phase):
+        """sc['latency'] = [{op, nth (per op, default every), phase, d}]: the
+        request stays in flight for d units of virtual time, i.e. until every
+        other thread is blocked or sleeps longer."""
+        for la in self.sc['latency']:
+            if la.get('op') != call['op'] or la.get('phase', 'begin') != phase:
+                continue
+            if 'nth' in la:
+                key = ('lat', id(la), phase)
+                seen = self.counters.setdefault(('latseq', id(la)), [])
+                if call['seq'] not in seen:
+                    seen.append(call['seq'])
+                if seen.index(call['seq']) + 1 != la['nth']:
+                    continue
+            self.sched.sleep(la.get('d', 1.0))
+            return
 
     def count(self, name):
         self.counters[name] = self.counters.get(name, 0) + 1
